@@ -403,6 +403,13 @@ Section Trees.
         set_size n3
     end.
 
+  (** the fix-up of right-leaning links at the end of [_put], followed by the size refresh *)
+  Definition rb_put_fix (n0 : tree) : res tree :=
+    do n1 <- (if isRed (tr n0) && negb (isRed (tl n0)) then rb_rotateLeft n0 else Ok n0) ;;
+    do n2 <- (if isRed (tl n1) && isRed (tl (tl n1)) then rb_rotateRight n1 else Ok n1) ;;
+    do n3 <- (if isRed (tl n2) && isRed (tr n2) then rb_flip n2 else Ok n2) ;;
+    set_size n3.
+
   Fixpoint rb_put (n : tree) (key : K) (val : V) : res tree :=
     match n with
     | Leaf => Ok (Node Leaf key val 1 0 true Leaf)
@@ -411,10 +418,7 @@ Section Trees.
         do n0 <- (if cm <? 0 then do l' <- rb_put l key val ;; Ok (Node l' k v s h c r)
                   else if 0 <? cm then do r' <- rb_put r key val ;; Ok (Node l k v s h c r')
                   else Ok (Node l k val s h c r)) ;;
-        do n1 <- (if isRed (tr n0) && negb (isRed (tl n0)) then rb_rotateLeft n0 else Ok n0) ;;
-        do n2 <- (if isRed (tl n1) && isRed (tl (tl n1)) then rb_rotateRight n1 else Ok n1) ;;
-        do n3 <- (if isRed (tl n2) && isRed (tr n2) then rb_flip n2 else Ok n2) ;;
-        set_size n3
+        rb_put_fix n0
     end.
 
   Definition set_color (c : bool) (n : tree) : tree :=
@@ -869,6 +873,7 @@ Arguments rb_flip {K V}.
 Arguments rb_moveRedLeft {K V}.
 Arguments rb_moveRedRight {K V}.
 Arguments rb_balance {K V}.
+Arguments rb_put_fix {K V}.
 Arguments rb_put {K V}.
 Arguments set_color {K V}.
 Arguments both_black_left {K V}.
